@@ -99,6 +99,9 @@ def gen_jobspec(rng, max_tasks=16, shape=None, multi_edges=False, gpu=True, big_
         else:
             nout = rng.choice([1, 1, 1, 2, 3, 4])
         names = [str(i) for i in range(nout)] if rng.random() < 0.7 or nout > 4 else rng.sample(["a", "b", "c", "d", "out", "z"], nout)
+        # declared order == key-sorted order, so that these engines do not depend on which of the two the runner binds by
+        # (C10 owns that question and generates unsorted declarations itself)
+        names = sorted(names)
         tasks[t] = {"outputs": names, "static_ps": {}, "static_kw": {}, "needs_gpu": gpu and rng.random() < 0.12,
                     "returns_none": False}
     for t in tids:
@@ -173,7 +176,7 @@ def build_job(js: dict, callable_factory=None):
 
 
 def reference_eval(js: dict) -> dict[tuple[str, str], Any]:
-    """Independent sequential evaluation: (task, output) -> value. Multi-output values are bound to key-sorted names."""
+    """Independent sequential evaluation: (task, output) -> value. Multi-output values are bound to the declared names in order (declared order is key-sorted in every generated job)."""
     vals: dict[tuple[str, str], Any] = {}
     for tid in js["order"]:
         t = js["tasks"][tid]
@@ -193,7 +196,8 @@ def reference_eval(js: dict) -> dict[tuple[str, str], Any]:
                 kwargs[kw] = vals[(s, o)]
             else:
                 put(ps, vals[(s, o)])
-        names = sorted(t["outputs"])
+        names = list(t["outputs"])
+        assert names == sorted(names), "jobgen declares outputs in key-sorted order"
         if t.get("returns_none"):
             vals[(tid, names[0])] = None
         else:
